@@ -255,6 +255,65 @@ theorem isotope_consistent (i : Iso) (hi : i ∈ isotopes) :
   obtain ⟨⟨⟨⟨⟨h1, h2⟩, h3⟩, h4⟩, h5⟩, h6⟩ := h i hi
   exact ⟨memEl_iff.mp h1, nbeq.mp h2, h3, h4, weightNear_sound h5 h6⟩
 
+
+def chkIsotopeNaming : Bool :=
+  isotopes.all fun i =>
+    Cherab.Periodic.isotopeNamedAfter i.parent.z i.parent.name i.parent.sym i.a i.base.name i.base.sym
+
+theorem chk_isotope_naming : chkIsotopeNaming = true := by decide +kernel
+
+/-- **an isotope is attached to the right element**: its element's (Z, symbol, name) is a row of the hand-written
+periodic table, and the isotope is named after *that* element — name `<element name><A>`, symbol `<element symbol><A>`,
+or one of the documented hydrogen names (protium/H, deuterium/D, tritium/T with A = 1, 2, 3 and Z = 1).  An isotope
+built with the wrong parent (hence the wrong atomic number) cannot satisfy this. -/
+theorem isotope_named_after_its_element (i : Iso) (hi : i ∈ isotopes) :
+    Cherab.Periodic.symbolMatches i.parent.z i.parent.sym = true ∧
+    Cherab.Periodic.nameMatches i.parent.z i.parent.name = true ∧
+    Cherab.Periodic.isotopeNamedAfter i.parent.z i.parent.name i.parent.sym i.a i.base.name i.base.sym = true := by
+  have h := chk_isotope_naming
+  simp only [chkIsotopeNaming, List.all_eq_true] at h
+  have hp := atomic_numbers_match_periodic_table i.parent (isotope_consistent i hi).1
+  exact ⟨hp.1, hp.2, h i hi⟩
+
+/-- general: `(symbol + str(A)).lower()` is `symbol.lower() + str(A)` whenever lower-casing leaves `str(A)` alone -/
+theorem lower_cat (a b : Nat) (hb : lower b = b) : lower (cat a b) = cat (lower a) b := lower_cat_of a b hb
+
+/-- a key `k` of isotope `i` that ends in `str(A)`: the part before it, if it is the lower-case symbol of an indexed
+element, is the symbol of `i`'s own element.  (Linear: the prefix is obtained by division, not by trying all elements.) -/
+def ownPrefix (i : Iso) (k : Nat) : Bool :=
+  if (k % 256 ^ bytes (strNat i.a)).beq (strNat i.a) then
+    match elementKeyTree.find (k / 256 ^ bytes (strNat i.a)) with
+    | some e => e.beq i.parent
+    | none => true
+  else true
+
+def chkForeignElement : Bool :=
+  isotopes.all fun i => (lower (strNat i.a)).beq (strNat i.a) && (isotopeKeys i).all (ownPrefix i)
+
+theorem chk_foreign_element : chkForeignElement = true := by decide +kernel
+
+/-- `lookup_isotope(v, number=A)` returns an isotope **only** for its own element: if `v` resolves (by
+`lookup_element`) to an exported element `e` and the lookup yields isotope `i` with `A = i.a`, then `e` is `i`'s element -/
+theorem lookup_isotope_only_by_own_element (i : Iso) (hi : i ∈ isotopes) (e : El) (he : e ∈ elements) (q : Query)
+    (hq : ∀ j, q ≠ .isot j) (hel : lookupElement elementIndex q = some e)
+    (h : lookupIsotope elementIndex isotopeIndex q (some (i.a : Int)) = some i) : e = i.parent := by
+  have ha : (i.a : Int) ≠ 0 := by have := (isotope_consistent i hi).2.2; omega
+  rw [lookupIsotope_number _ _ _ hq _ ha, hel] at h
+  have hk : isotopeIndex.get? (lower (cat e.sym (strNat i.a))) = some i := h
+  have hs := get?_buildIndex_sound isotopeKeys indexedIsotopes _ _ hk
+  have hf := chk_foreign_element
+  simp only [chkForeignElement, List.all_eq_true, Bool.and_eq_true] at hf
+  obtain ⟨hdig, hown⟩ := hf i hi
+  have hdig' : lower (strNat i.a) = strNat i.a := nbeq.mp hdig
+  rw [lower_cat_of _ _ hdig'] at hs
+  have h1 := hown _ hs.2
+  have hfind : elementKeyTree.find (lower e.sym) = some e := by
+    have hc := chk_element_keys
+    simp only [chkElementKeys, List.all_eq_true] at hc
+    exact optElIs_iff.mp (hc e (all_exported_indexed.1 e he) _ (by simp [elementKeys]))
+  simp only [ownPrefix, cat_mod, cat_div, nbeq.mpr rfl, if_true, hfind] at h1
+  exact El.beq_iff.mp h1
+
 /-! ## equality and hashing -/
 
 theorem hash_fields_subset :
